@@ -228,7 +228,7 @@ def api_level(chk, tier, rng):
 def rename_session(rng):
     s = 1
     st = [["connect", s], ["send", s, "USER u1"], ["send", s, "PASS pw1"]]
-    args = ["f", "d", "d/g", "d/e", "x", "d/x", "f/x", "x/y", "d/e/z", "d/g/z", "."]
+    args = ["f", "d", "d/g", "d/e", "x", "d/x", "f/x", "x/y", "d/e/z", "d/g/z", ".", "x/y/z", "d/q/r/s"]
     for _ in range(rng.choice([5, 9])):
         r = rng.random()
         if r < 0.4:
@@ -256,6 +256,16 @@ def rename_corners():
                 st = login + [["send", s, "RNFR " + src]] + ([["send", s, mid]] if mid else []) + [["send", s, "RNTO " + dst],
                              ["send", s, "MLST " + src], ["send", s, "MLST " + dst], ["send", s, "RNTO " + dst]]
                 out.append(st)
+    return out
+
+
+def deep_mkdir_sessions():
+    """MKD of a path whose last one, two or three parents are missing (the backends create the whole chain or none of it)."""
+    login = [["connect", 1], ["send", 1, "USER u1"], ["send", 1, "PASS pw1"]]
+    out = []
+    for p in ("x", "x/y", "x/y/z", "x/y/z/w", "d/q/r", "d/q/r/s", "/d/e/a/b/c", "f/a/b", "d/g/a/b"):
+        out.append(login + [["send", 1, "MKD " + p], ["send", 1, "MLST " + p], ["send", 1, "MLST " + p.rsplit("/", 1)[0]], ["send", 1, "MKD " + p],
+                            ["send", 1, "RMD " + p], ["send", 1, "MLST x"], ["send", 1, "MLST d/q"]])
     return out
 
 
@@ -303,6 +313,7 @@ def ftp_level(chk, tier, rng):
     n = 100 if tier == "quick" else 2500
     scheds = [rename_session(rng) for _ in range(n)] + [gen.rand_session(rng, 1, steps=rng.choice([6, 10])) for _ in range(n)]
     scheds += through_file_sessions()
+    scheds += deep_mkdir_sessions()
     scheds += rename_corners() if tier != "quick" else rename_corners()[::2]
     # two sessions with handles on the same file at the same time (a transfer held in its j-th read / write while the other
     # session stats, lists or downloads that file)
